@@ -12,6 +12,7 @@ import OptreeModel.Lemmas.UpToAlign
 import OptreeModel.Lemmas.UpToSelf
 import OptreeModel.Properties.C01
 import OptreeModel.Properties.C03
+import OptreeModel.Properties.C04
 
 namespace Optree
 
@@ -377,5 +378,69 @@ theorem C05_inplace_same_calls (cfg : Cfg) (variant : MapVariant) (f : UserFn) (
   simp only
   repeat' split
   all_goals first | rfl | simp_all
+
+/-! ### the with_accessor variant -/
+
+/-- **`tree_map_with_accessor(f, t, *rests)`**: the same as `tree_map`, and every call additionally receives, first,
+the accessor of its leaf: the i-th argument tuple is `(accessor_i, leaf_i, subs_1[i], …)` where `accessor_i` is the
+i-th accessor of the treespec -/
+theorem C05_map_with_accessor_result (cfg : Cfg) (hreg : cfg.reg.OK) (hst : PredOnLeaves cfg) (f : UserFn) (t : PyObj)
+    (rests : List PyObj) (ht : t.wf = true) (ls : List PyObj) (sp : Spec)
+    (h : flatten cfg t = .ok (ls, sp)) (as : List (List AccEntry)) (hacc : accessors sp = .ok as)
+    (hal : as.length = ls.length)
+    (restLeaves : List (List PyObj)) (hrest : rests.mapM (flattenUpTo cfg.reg sp) = .ok restLeaves)
+    (hlen : ∀ l ∈ restLeaves, l.length = ls.length)
+    (rs : List PyObj)
+    (hcalls : (callAll f 0 ((List.range ls.length).map fun i =>
+        Arg.acc as[i]! :: (ls :: restLeaves).map fun l => Arg.obj l[i]!) [] []).1 = .ok rs)
+    (hleafy : ∀ x ∈ rs, LeafObj cfg x) :
+    ∃ r, (treeMapGen cfg .withAccessor false f t rests).result = .ok r ∧
+      (treeMapGen cfg .withAccessor false f t rests).log =
+        ((List.range ls.length).map fun i => Arg.acc as[i]! :: (ls :: restLeaves).map fun l => Arg.obj l[i]!) ∧
+      flatten cfg r = .ok (rs, sp) := by
+  have hcols := zipArgs_same_length ls restLeaves hlen
+  obtain ⟨hlog, hrl⟩ := C05_calls_in_order f _ rs hcalls
+  have hrl' : rs.length = ls.length := by simpa using hrl
+  obtain ⟨r, hu, hf⟩ := C01_replace_leaves cfg hreg hst t ht ls sp h rs hrl' hleafy
+  have hargs : (List.range (min (as.map fun a => [Arg.acc a]).length (zipArgs (ls :: restLeaves)).length)).map
+      (fun i => (as.map fun a => [Arg.acc a])[i]! ++ ((zipArgs (ls :: restLeaves))[i]!).map Arg.obj) =
+      (List.range ls.length).map fun i => Arg.acc as[i]! :: (ls :: restLeaves).map fun l => Arg.obj l[i]! := by
+    rw [hcols]
+    simp only [List.length_map, List.length_range, hal, Nat.min_self]
+    apply List.map_congr_left
+    intro i hi
+    have hi' : i < ls.length := by simpa using hi
+    have hi'' : i < as.length := by omega
+    simp [hi', hi'', List.map_map, Function.comp_def]
+  refine ⟨r, ?_, ?_, hf⟩
+  · unfold treeMapGen
+    simp only [h, hrest, hacc, hargs]
+    cases hc : callAll f 0 ((List.range ls.length).map fun i =>
+        Arg.acc as[i]! :: (ls :: restLeaves).map fun l => Arg.obj l[i]!) [] [] with
+    | mk res log =>
+      rw [hc] at hcalls
+      simp only at hcalls
+      subst hcalls
+      simp [hu]
+  · unfold treeMapGen
+    simp only [h, hrest, hacc, hargs]
+    cases hc : callAll f 0 ((List.range ls.length).map fun i =>
+        Arg.acc as[i]! :: (ls :: restLeaves).map fun l => Arg.obj l[i]!) [] [] with
+    | mk res log =>
+      rw [hc] at hcalls hlog
+      simp only at hcalls hlog
+      subst hcalls
+      simp [hlog]
+
+/-- without a predicate the accessors exist, one per leaf, and the accessor handed to the i-th call leads from the
+tree to the i-th leaf (`C04_accessors_of_flatten`) -/
+theorem C05_map_with_accessor_reaches (cfg : Cfg) (hp : cfg.pred = Option.none) (t : PyObj) (ht : t.wf = true)
+    (ls : List PyObj) (sp : Spec) (h : flatten cfg t = .ok (ls, sp)) (hns : sp.ns = cfg.ns) :
+    ∃ as, accessors sp = .ok as ∧ as.length = ls.length ∧
+      ∀ (i : Nat) (a : List AccEntry) (x : PyObj), as[i]? = some a → ls[i]? = some x →
+        PyObj.follow cfg t (pathOf a) = some x := by
+  obtain ⟨as, h1, _, h3, _, h5⟩ := C04_accessors_of_flatten cfg hp t ht ls sp h hns
+  exact ⟨as, h1, h3, h5⟩
+
 
 end Optree
